@@ -151,7 +151,7 @@ def main():
             {"name": "c20", "path": "checks/c20.py", "serves_properties": ["C20"], "kind_free_text": "PathXlate.tla validation of recorded translation calls, api calls and executor environment"},
             {"name": "history", "path": "checks/history.py", "serves_properties": sorted(p for p, c in CHECKS.items() if c["engine"] == "history"),
              "kind_free_text": "Layer B histories; final states of related executions compared by TLC through spec/RelCheck.tla"},
-            {"name": "filestep", "path": "checks/filestep.py", "serves_properties": ["C02", "C14"], "kind_free_text": "FileStep.tla model check + replay of action sequences into the real Workflow (Layer G); library called by the C02 and C14 checks"},
+            {"name": "filestep", "path": "checks/filestep.py", "serves_properties": ["C02", "C05", "C14"], "kind_free_text": "FileStep.tla model check + replay of action sequences into the real Workflow (Layer G); library called by the C02, C05 and C14 checks"},
             {"name": "plans", "path": "checks/plans.py", "serves_properties": ["C01"], "kind_free_text": "Plans.tla model check (finds F17) + replay of plan/sub-plan ownership transfer into the real Workflow (Layer G); library called by the C01 check"},
             {"name": "schedcache", "path": "checks/schedcache.py", "serves_properties": ["C10", "C11", "C12"], "kind_free_text": "SchedCache.tla model check (cache = definition whenever nothing is flagged; finds F1 and F2 in their pre-fix variants) + replay of graph-modification sequences into the real Workflow + Scheduler (Layer G); library called by the C10, C11 and C12 checks"},
             {"name": "recycle", "path": "checks/recycle.py", "serves_properties": ["C01"], "kind_free_text": "Recycle.tla model check + replay of plan re-execution sequences into the real Workflow (Layer G); library called by the C01 check"},
